@@ -79,12 +79,14 @@ PAIRS = {"<start>": ["<pair>", "<pair>;<start>"], "<pair>": ["<entry>=<entry>"],
 ASSGN2S = {"<start>": ["<stmt>"], "<stmt>": ["<assgn> ; <stmt>", "<assgn>"], "<assgn>": ["<var> := <rhs>", "!<var>"],
            "<rhs>": ["<var>", "<digit>"], "<var>": ["a", "b"], "<digit>": ["0", "1", "#<var>"]}
 # terminals that look like markup: bracket-delimited but with a blank inside, so not nonterminals
-MARKUP = {"<start>": ["<doc>"], "<doc>": ["<!DOCTYPE html><body>", "<body>"], "<body>": ["<br /><body>", "<p><body>", ""], "<p>": ["x", "<br />"]}
+MARKUP = {"<start>": ["<doc>"], "<doc>": ["<!DOCTYPE html><body>", "<body>"], "<body>": ["<p><br /><body>", ""], "<p>": ["x", "<br />"]}
+# a recursive nonterminal that is re-entered along two routes (through unary chains)
+REENTRANT = {"<start>": ["<X>"], "<X>": ["<Y>", "<P>", "a"], "<Y>": ["<Z>"], "<Z>": ["<X>!", "z"], "<P>": ["(<X>)"]}
 SIBLING_OF = {"ASSGN2S": ("ASSGN2", "a := 1 ; b := a")}      # grammar -> (earlier grammar, an input of it)
 WIDE12 = {"<start>": ["<row>"], "<row>": ["<d>" * 12], "<d>": ["0", "1"]}
 
 GRAMMARS = {
-    "SHAREDALT": SHAREDALT, "PAIRS": PAIRS, "ASSGN2S": ASSGN2S, "WIDE12": WIDE12, "MARKUP": MARKUP,
+    "SHAREDALT": SHAREDALT, "PAIRS": PAIRS, "ASSGN2S": ASSGN2S, "WIDE12": WIDE12, "MARKUP": MARKUP, "REENTRANT": REENTRANT,
     "ASSGN": ASSGN, "ASSGN2": ASSGN2, "XMLISH": XMLISH, "NUM": NUM, "NULLABLE": NULLABLE,
     "AMBIG": AMBIG, "LEFTREC": LEFTREC, "RIGHTREC": RIGHTREC, "MULTICHAR": MULTICHAR,
     "CSVISH": CSVISH, "TWOSTART": TWOSTART, "LENGTHS": LENGTHS,
